@@ -937,7 +937,9 @@ impl<'de> Deserialize<'de> for CompoundType {
     where
         D: Deserializer<'de>,
     {
-        Type::deserialize(deserializer).map(Self::from)
+        let ty = Type::deserialize(deserializer)?;
+        Self::try_from_type(ty)
+            .ok_or_else(|| serde::de::Error::custom("type has too many nested layers"))
     }
 }
 
@@ -954,16 +956,23 @@ impl CompoundType {
     /// Converts a [`Type`] into a [`CompoundType`].
     #[inline]
     pub const fn from_type(ty: Type) -> Self {
-        match match ty {
+        match Self::try_from_type(ty) {
+            Some(ty) => ty,
+            None => panic!("Could not convert type to compound type"),
+        }
+    }
+
+    /// Converts a [`Type`] into a [`CompoundType`], returning `None`
+    /// when the type has too many nested layers to be represented.
+    #[inline]
+    pub const fn try_from_type(ty: Type) -> Option<Self> {
+        match ty {
             Type::Bool => Some(Self::new(PrimitiveType::Bool)),
             Type::Bytes => Some(Self::new(PrimitiveType::Bytes)),
             Type::Int => Some(Self::new(PrimitiveType::Int)),
             Type::Ip => Some(Self::new(PrimitiveType::Ip)),
             Type::Array(ty) => ty.push(Layer::Array),
             Type::Map(ty) => ty.push(Layer::Map),
-        } {
-            Some(ty) => ty,
-            None => panic!("Could not convert type to compound type"),
         }
     }
 
